@@ -756,9 +756,19 @@ var extraAnchors = []string{
 // Both are contradiction rules in Engler's sense: the code that obtains an error value believes it can be non-nil.
 // It returns the number of error definitions inspected.
 func (c *Ctx) errorDiscipline(rule string, fi *load.FuncInfo, detail string) int {
+	n := c.errorDisciplineOn(rule, fi.Name(), fi.Info(), c.Graph(fi), detail)
+	for k, lit := range funcLitsIn(fi.Body()) {
+		name := fi.Name() + "$lit"
+		if k > 0 {
+			name += itoa(k + 1)
+		}
+		n += c.errorDisciplineOn(rule, name, fi.Info(), c.LitGraph(name, lit, fi.Info()), detail)
+	}
+	return n
+}
+
+func (c *Ctx) errorDisciplineOn(rule, fname string, info *types.Info, g *cfgx.Graph, detail string) int {
 	r := c.R
-	info := fi.Info()
-	g := c.Graph(fi)
 	errT := types.Universe.Lookup("error").Type()
 	n := 0
 	seenObj := map[types.Object]bool{}
@@ -817,7 +827,7 @@ func (c *Ctx) errorDiscipline(rule string, fi *load.FuncInfo, detail string) int
 					}
 				}
 			}
-			r.Check(dropped == "", rule, fi.Name(), "error of "+callee+" is looked at on every path", c.P.Pos(call.Pos()), "first mention on every path is a test, a return or a use",
+			r.Check(dropped == "", rule, fname, "error of "+callee+" is looked at on every path", c.P.Pos(call.Pos()), "first mention on every path is a test, a return or a use",
 				"the error returned by "+callee+" is dropped on some path ("+dropped+" without the error having been examined): "+detail)
 		}
 	}
@@ -834,10 +844,57 @@ func (c *Ctx) errorDiscipline(rule string, fi *load.FuncInfo, detail string) int
 			}
 		}
 	}
-	for _, rv := range g.Returns() {
-		rs := rv.Node.(*ast.ReturnStmt)
+	// sites that hand an error value on: return statements, and calls that get it as an argument (log, Fatal, Errorf, …)
+	type site struct {
+		v    int
+		node ast.Node
+		what string
+	}
+	var sites []site
+	for _, v := range g.Nodes() {
+		switch x := v.Node.(type) {
+		case *ast.ReturnStmt:
+			sites = append(sites, site{v.ID, x, "return"})
+		case *ast.ExprStmt:
+			if call, ok := x.X.(*ast.CallExpr); ok {
+				sites = append(sites, site{v.ID, call, "call of " + astx.Str(call.Fun)})
+			}
+		}
+	}
+	effect := func(x int) bool {
+		switch st := g.V[x].Node.(type) {
+		case *ast.AssignStmt, *ast.IncDecStmt, *ast.GoStmt, *ast.SendStmt:
+			return true
+		case *ast.ExprStmt:
+			if call, ok := st.X.(*ast.CallExpr); ok {
+				if cfgx.NoReturn(info, call) {
+					return false
+				}
+				if fn := astx.Callee(info, call); fn != nil && fn.Pkg() != nil {
+					switch fn.Pkg().Path() {
+					case "log", "fmt", "github.com/golang/glog":
+						return false
+					}
+				}
+				return true
+			}
+		}
+		return false
+	}
+	for _, st := range sites {
 		done := map[types.Object]bool{}
-		for _, res := range rs.Results {
+		var args []ast.Node
+		switch x := st.node.(type) {
+		case *ast.ReturnStmt:
+			for _, res := range x.Results {
+				args = append(args, res)
+			}
+		case *ast.CallExpr:
+			for _, a := range x.Args {
+				args = append(args, a)
+			}
+		}
+		for _, res := range args {
 			ast.Inspect(res, func(nd ast.Node) bool {
 				if _, isLit := nd.(*ast.FuncLit); isLit {
 					return false
@@ -857,14 +914,15 @@ func (c *Ctx) errorDiscipline(rule string, fi *load.FuncInfo, detail string) int
 						continue
 					}
 					for k, e := range v.Succ {
-						if e.Tag != nil || !g.EdgeDominates(e, rv.ID) {
+						if e.Tag != nil || !g.EdgeDominates(e, st.v) {
 							continue
 						}
-						// stale: the variable is redefined between this edge and the return
+						// stale: the variable is redefined between this edge and the site
 						stale := false
-						fromE := g.Reach(e.To, nil, nil)
+						notE := func(x *cfgx.Edge) bool { return x == e }
+						fromE := g.Reach(e.To, nil, notE)
 						for _, d := range defVs[obj] {
-							if (fromE[d] || d == e.To) && g.Reach(d, nil, nil)[rv.ID] {
+							if (fromE[d] || d == e.To) && g.Reach(d, nil, notE)[st.v] {
 								stale = true
 							}
 						}
@@ -879,16 +937,34 @@ func (c *Ctx) errorDiscipline(rule string, fi *load.FuncInfo, detail string) int
 							if xid, ok := ast.Unparen(x).(*ast.Ident); ok && astx.Obj(info, xid) == obj {
 								if isNil {
 									sawNil = true
-									// is the other edge of this test — the one on which the error is set — dealt with? It is when
-									// every path from it ends in a return that mentions the variable, or in a no-return call.
-									// (`if err != nil { return nil, err }; …; return x, err` hands back a nil err harmlessly.)
+									// is the other edge of this test — the one on which the error is set — dealt with? It is when every
+									// path from it ends, before anything with an effect happens, in a return that mentions the
+									// variable or in a no-return call. (`if err != nil { return nil, err }; …; return x, err` hands
+									// back a nil err harmlessly.)
 									sib := v.Succ[1-k]
-									handledRet := func(x int) bool {
-										rs2, ok := g.V[x].Node.(*ast.ReturnStmt)
-										return ok && astx.Mentions(info, rs2, obj)
+									stop := func(x int) bool {
+										if rs2, ok := g.V[x].Node.(*ast.ReturnStmt); ok && astx.Mentions(info, rs2, obj) {
+											return true
+										}
+										return effect(x)
 									}
-									if !handledRet(sib.To) && g.Reach(sib.To, handledRet, nil)[g.Exit] {
+									if effect(sib.To) {
 										unhandled = true
+									} else if rs2, ok := g.V[sib.To].Node.(*ast.ReturnStmt); !(ok && astx.Mentions(info, rs2, obj)) {
+										reach := g.Reach(sib.To, stop, nil)
+										if reach[g.Exit] {
+											unhandled = true
+										}
+										for x := range g.V {
+											if !reach[x] {
+												continue
+											}
+											for _, e2 := range g.V[x].Succ {
+												if effect(e2.To) {
+													unhandled = true
+												}
+											}
+										}
 									}
 								} else {
 									sawNonNil = true
@@ -897,10 +973,37 @@ func (c *Ctx) errorDiscipline(rule string, fi *load.FuncInfo, detail string) int
 						}
 					}
 				}
-				r.Check(!(sawNil && !sawNonNil && unhandled), rule, fi.Name(), "an error variable is handed back only where it can be non-nil", c.P.Pos(rs.Pos()), "no current dominating test says it is nil",
-					"the return statement hands back (or reports) "+id.Name+" on the edge where the dominating test established "+id.Name+" == nil: the function reports success — or a failure with a nil cause — at the point where it was meant to report the failure, and continues with the failed result on the other edge: "+detail)
+				r.Check(!(sawNil && !sawNonNil && unhandled), rule, fname, "an error variable is handed on ("+st.what+") only where it can be non-nil", c.P.Pos(st.node.Pos()), "no current dominating test says it is nil",
+					"the statement reports "+id.Name+" on the edge where the dominating test established "+id.Name+" == nil, and the edge on which it is set carries on with the normal work: the failure is taken for success (and success is reported as a failure with a nil cause): "+detail)
 				return true
 			})
+		}
+	}
+	// E3: an error test with an empty branch — both edges of the test lead to the same statement
+	skipTails := func(x int) int {
+		for k := 0; k < 8; k++ {
+			vx := g.V[x]
+			if vx.Node == nil && vx.Kind == "tail" && len(vx.Succ) == 1 && vx.Succ[0].Cond == nil && vx.Succ[0].Range == nil {
+				x = vx.Succ[0].To
+				continue
+			}
+			break
+		}
+		return x
+	}
+	for _, v := range g.V {
+		if len(v.Succ) != 2 || v.Succ[0].Cond == nil || skipTails(v.Succ[0].To) != skipTails(v.Succ[1].To) {
+			continue
+		}
+		for _, f := range cfgx.ExpandCond(v.Succ[0].Cond, v.Succ[0].Val) {
+			x, _, ok := nilCompare(info, f)
+			if !ok {
+				continue
+			}
+			if xid, ok := ast.Unparen(x).(*ast.Ident); ok && seenObj[astx.Obj(info, xid)] {
+				r.Fail(rule, fname, "a tested error has a consequence", c.P.Pos(v.Succ[0].Cond.Pos()),
+					"the error is compared with nil but both outcomes continue with the same statement (empty branch): the failure is ignored: "+detail)
+			}
 		}
 	}
 	return n
@@ -1019,6 +1122,53 @@ func (c *Ctx) iteratorDiscipline(rule string, fi *load.FuncInfo) int {
 				"Key()/Value() is evaluated on a path where the last positioning call reported that there is no entry (an empty database, or the end of the key space): the nil key is taken for a log key — the first/last index is garbage or the conversion fails and the store does not open")
 		}
 	}
+	// (iv) a loop that runs while the iterator has entries moves the iterator on every way back to its head
+	ast.Inspect(fi.Body(), func(n ast.Node) bool {
+		fs, ok := n.(*ast.ForStmt)
+		if !ok || fs.Cond == nil || len(fs.Body.List) == 0 {
+			return true
+		}
+		ctl := false
+		for _, cl := range c.clausesOf(info, fi.Node(), fs.Cond, true, 0) {
+			for _, l := range cl {
+				if l.Pos && flagOfPos(l.E) {
+					ctl = true
+				}
+			}
+		}
+		if !ctl {
+			return true
+		}
+		if _, isCall := ast.Unparen(fs.Cond).(*ast.CallExpr); isCall {
+			return true // `for it.Next() {` advances in its condition
+		}
+		start := g.VertexOf(fs.Body.List[0])
+		head := g.VertexAt(fs.Cond.Pos(), fs.Cond.End())
+		if start < 0 || head < 0 {
+			return true
+		}
+		adv := func(x int) bool { return hasCall(g.V[x].Node, "Next", "Prev", "Seek") != nil }
+		spin := false
+		reach := g.Reach(start, func(x int) bool { return adv(x) || x == head }, nil)
+		for x := range g.V {
+			if !(reach[x] || x == start) || adv(x) {
+				continue
+			}
+			for _, e := range g.V[x].Succ {
+				if e.To == head {
+					spin = true
+				}
+			}
+		}
+		if fs.Post != nil {
+			if pv := g.VertexOf(fs.Post); pv >= 0 && adv(pv) {
+				spin = false
+			}
+		}
+		r.Check(!spin, rule, fi.Name(), "the iteration loop advances the iterator on every way round", c.P.Pos(fs.Pos()), "Next() on every path from the body back to the loop condition",
+			"the loop can start its next round without having moved the iterator: the same entry is processed again and again (folded twice, written twice) and the loop never ends")
+		return true
+	})
 	// (iii)
 	for _, v := range g.Nodes() {
 		call := hasCall(v.Node, "Key", "Value")
@@ -1045,4 +1195,41 @@ func (c *Ctx) iteratorDiscipline(rule string, fi *load.FuncInfo) int {
 			"Key()/Value() is evaluated on an iterator that was never positioned on some path: it yields nil")
 	}
 	return nPos
+}
+
+// attribName names the function an obligation is attributed to: fi itself, or — when fi is an unexported function with
+// exactly one static call site in its package — (transitively) its only caller. A block that a maintainer extracts into a
+// private helper keeps its obligation keys, so a recorded known finding still matches the same defect there.
+func (c *Ctx) attribName(fi *load.FuncInfo) string {
+	cur := fi
+	for k := 0; k < 3; k++ {
+		if cur.Obj == nil || cur.Obj.Exported() || c.P.IsAnchor(cur.Name()) {
+			break
+		}
+		var callers []*load.FuncInfo
+		nSites := 0
+		for _, other := range c.P.AllFuncs {
+			if other.Body() == nil || other == cur || other.Obj == nil || other.Obj.Pkg() != cur.Obj.Pkg() {
+				continue
+			}
+			for _, call := range astx.Calls(other.Body(), true) {
+				if astx.Callee(other.Info(), call) == cur.Obj {
+					nSites++
+					callers = append(callers, other)
+				}
+			}
+		}
+		if nSites != 1 {
+			break
+		}
+		cur = callers[0]
+	}
+	return cur.Name()
+}
+
+func derefType(t types.Type) types.Type {
+	if p, ok := t.(*types.Pointer); ok {
+		return p.Elem()
+	}
+	return t
 }
